@@ -57,5 +57,11 @@ try:
 except Exception:
     pass
 
-if "/repo" not in sys.path:
+import os as _os
+
+# development aid (tools/seeded_run.sh --scratch): analyse a scratch worktree instead of /repo.  The registered commands never set it.
+_alt = _os.environ.get("VERIF_REPO")
+if _alt and "doctrans" not in sys.modules:
+    sys.path.insert(0, _alt)
+elif "/repo" not in sys.path:
     sys.path.insert(0, "/repo")
